@@ -64,6 +64,39 @@ Proof.
   apply orb_false_iff; split; assumption.
 Qed.
 
+(* ---- SEVERAL occurrences in sequential position: the reflexive-transitive closure of [sctx].
+   C[x, x] -> C[s, x] -> C[s, s]: each step replaces ONE occurrence; the siblings evaluated before it may
+   already contain s (assignment-free) and the ones after it may still contain x (arbitrary).  The outcomes of
+   consecutive steps are related by the single-occurrence theorem, each with its own renaming (the second
+   evaluation of s allocates a fresh block of cells: the renamings grow along the chain); "equal up to cell
+   indices" composes, so the end points are related. ---- *)
+Inductive sctxs (x : string) (s : expr) : expr -> expr -> Prop :=
+| SS_refl : forall e, sctxs x s e e
+| SS_step : forall a b c, sctx x s a b -> sctxs x s b c -> sctxs x s a c.
+Lemma sctx_sctxs : forall x s a b, sctx x s a b -> sctxs x s a b.
+Proof. intros x s a b H. eapply SS_step; [exact H|apply SS_refl]. Qed.
+Lemma osame_refl : forall a, osame a a.
+Proof. intros [x| | | |]; cbn; try exact I. reflexivity. Qed.
+
+Section Multi.
+  Variable release : bool.
+  Variable bi : callback -> binop -> value -> value -> store -> outcome value * store.
+  Variable bu : callback -> builtin -> list value -> store -> outcome value * store.
+  Hypothesis Hops : ops_commute bi bu.
+  Hypothesis Hwfo : ops_wf bi bu.
+  Hypothesis Hkeep : forall d c e r c', evalD release bi bu d c e = (r, c') -> store_keep (fst c) (fst c').
+  Variable d : nat.
+  Theorem let_abstraction_seq_multi : forall x s fr v, cell_free v = true ->
+    forall st eA eB, Inv release bi bu d x s fr v st -> sctxs x s eA eB ->
+      osame (fst (evalD release bi bu d (st, fr) eA)) (fst (evalD release bi bu d (st, fr) eB)).
+  Proof.
+    intros x s fr v Hv st eA eB HI H. induction H as [e|a b c Hab _ IH]; [apply osame_refl|].
+    eapply osame_trans; [|exact IH].
+    exact (let_abstraction_seq release bi bu Hops Hwfo Hkeep d x s fr v Hv st a b _ _ _ _ HI Hab
+             (surjective_pairing _) (surjective_pairing _)).
+  Qed.
+End Multi.
+
 Section LetProg.
   Variable release : bool.
   Variable bi : callback -> binop -> value -> value -> store -> outcome value * store.
@@ -98,9 +131,9 @@ Section LetProg.
     exists st1, FOwned, f, rest. split; [reflexivity|split; reflexivity].
   Qed.
 
-  Theorem let_program : forall x s C_x C_s st fr v c1 rA cA rB cB,
+  Theorem let_program_multi : forall x s C_x C_s st fr v c1 rA cA rB cB,
     frames_lt (length st) fr = true -> no_assign s = true -> no_assign C_s = true ->
-    sctx x s C_x C_s ->
+    sctxs x s C_x C_s ->
     (* x fresh *)
     nocc x s = true -> nocc x C_s = true -> frames_nm x fr = true ->
     (* program A:  x = s; C[x]      program B:  C[s] *)
@@ -144,9 +177,24 @@ Section LetProg.
       as [_ EB2].
     fold frX in EB2.
     (* the sequential-context theorem in the configuration after the assignment *)
-    pose proof (let_abstraction_seq release bi bu Hops Hwfo Hkeep d x s frX v Hv st1 C_x C_s rA cA (oren rho rB) _
-                  HI Hctx HA EB2) as Ho.
-    eapply osame_trans; [exact Ho|]. apply osame_sym. apply osame_oren.
+    pose proof (let_abstraction_seq_multi release bi bu Hops Hwfo Hkeep d x s frX v Hv st1 C_x C_s HI Hctx) as Ho.
+    assert (Ho' : osame rA (oren rho rB)).
+    { change rA with (fst (rA, cA)). rewrite <- HA.
+      change (oren rho rB) with (fst (oren rho rB, (sB', frX))). rewrite <- EB2. exact Ho. }
+    eapply osame_trans; [exact Ho'|]. apply osame_sym. apply osame_oren.
+  Qed.
+  Corollary let_program : forall x s C_x C_s st fr v c1 rA cA rB cB,
+    frames_lt (length st) fr = true -> no_assign s = true -> no_assign C_s = true ->
+    sctx x s C_x C_s ->
+    nocc x s = true -> nocc x C_s = true -> frames_nm x fr = true ->
+    evD (st, fr) (EAssign x s) = (Ok v, c1) ->
+    cell_free v = true ->
+    evD c1 C_x = (rA, cA) ->
+    evD (st, fr) C_s = (rB, cB) ->
+    osame rA rB.
+  Proof.
+    intros x s C_x C_s st fr v c1 rA cA rB cB Hwf Hna HnaC Hctx.
+    exact (let_program_multi x s C_x C_s st fr v c1 rA cA rB cB Hwf Hna HnaC (sctx_sctxs x s C_x C_s Hctx)).
   Qed.
 End LetProg.
 
@@ -176,6 +224,34 @@ Theorem let_program_full : forall release d x s C_x C_s st fr v c1 rA cA rB cB,
 Proof.
   intros release d.
   exact (let_program release binop_impl builtin_full ops_commute_full ops_wf_full (evalD_store_keep_full release) ops_nm_full d).
+Qed.
+
+(* several occurrences *)
+Theorem let_abstraction_seq_multi_full : forall release d x s st st1 fr v eA eB,
+  frames_lt (length st) fr = true ->
+  evalD release binop_impl builtin_full d (st, fr) (EId x) = (Ok v, (st, fr)) ->
+  evalD release binop_impl builtin_full d (st, fr) s = (Ok v, (st1, fr)) ->
+  cell_free v = true ->
+  sctxs x s eA eB ->
+  osame (fst (evalD release binop_impl builtin_full d (st, fr) eA)) (fst (evalD release binop_impl builtin_full d (st, fr) eB)).
+Proof.
+  intros release d x s st st1 fr v eA eB Hwf Hx Hs Hv H.
+  apply (let_abstraction_seq_multi release binop_impl builtin_full ops_commute_full ops_wf_full
+           (evalD_store_keep_full release) d x s fr v Hv st eA eB); [|exact H].
+  split; [exact Hwf|split; [exact Hx|exists st1; exact Hs]].
+Qed.
+Theorem let_program_multi_full : forall release d x s C_x C_s st fr v c1 rA cA rB cB,
+  frames_lt (length st) fr = true -> no_assign s = true -> no_assign C_s = true ->
+  sctxs x s C_x C_s ->
+  nocc x s = true -> nocc x C_s = true -> frames_nm x fr = true ->
+  evalD release binop_impl builtin_full d (st, fr) (EAssign x s) = (Ok v, c1) ->
+  cell_free v = true ->
+  evalD release binop_impl builtin_full d c1 C_x = (rA, cA) ->
+  evalD release binop_impl builtin_full d (st, fr) C_s = (rB, cB) ->
+  osame rA rB.
+Proof.
+  intros release d.
+  exact (let_program_multi release binop_impl builtin_full ops_commute_full ops_wf_full (evalD_store_keep_full release) ops_nm_full d).
 Qed.
 
 (* after ANY top-level program prefix (function-free inputs): the well-formedness hypothesis is discharged *)
